@@ -157,7 +157,8 @@ class Check:
             if t not in printed:
                 self.obligations.append((rel + ":" + t, True))
         if self.tier == "thorough" and os.environ.get("VERIF_NO_COQCHK") != "1":
-            self._coqchk(rel)
+            if not self._coqchk(rel):
+                return False, "coqchk (independent checker) rejects " + rel, self.extra.get("coqchk", {}).get("tail", "")
         return True, None, out
 
     def _coqchk(self, rel):
@@ -180,6 +181,7 @@ class Check:
         self.obligations.append(("coqchk -o %s (independent checker)" % lib, rc == 0))
         if rc != 0:
             self.notes.append("coqchk failed: " + out[-300:])
+        return rc == 0
 
     @staticmethod
     def _parse_assumptions(out):
